@@ -4,6 +4,7 @@ import (
 	"fmt"
 	"go/ast"
 	"go/token"
+	"golang.org/x/tools/go/ssa"
 	"sort"
 	"strings"
 )
@@ -173,6 +174,104 @@ func ruleV3(c *Ctx) {
 	}
 }
 
+// fsmIndexName: source name of the scan index of an extracted automaton (the loop-head phi compared with len(buf)).
+func fsmIndexName(r *fsmResult) string {
+	if r == nil || r.head == nil {
+		return ""
+	}
+	iff, ok := r.head.Instrs[len(r.head.Instrs)-1].(*ssa.If)
+	if !ok {
+		return ""
+	}
+	bo, ok := iff.Cond.(*ssa.BinOp)
+	if !ok {
+		return ""
+	}
+	for _, v := range []ssa.Value{bo.X, bo.Y} {
+		if ph, ok := v.(*ssa.Phi); ok && ph.Block() == r.head {
+			return ph.Comment
+		}
+	}
+	return ""
+}
+
+// V5: trimming survives a suspension. A state that a more-bytes exit leaves in the object together with an offset
+// the whitespace skipper already advanced ("resume after the blanks seen so far") is re-entered with the scan index
+// past trailing blanks; in such a state no transition taken on a whitespace byte (or at buffer end) may close a span at the bare scan index (X.Extend(i),
+// X.Set(a, i), *end = i): the blanks skipped before the suspension would become part of the value.
+func ruleV5(c *Ctx) {
+	nStates, nTrans := 0, 0
+	for _, fn := range []string{"ParseNameAddrPVal", "ParseCSeqVal", "ParseCallIDVal", "ParseUIntVal", "ParseTokenParam"} {
+		r := fsmOf(c, fn)
+		if r == nil || r.head == nil || r.capped {
+			c.fail("V5", fn+":fsm", token.NoPos, "state machine could not be extracted")
+			continue
+		}
+		idx := fsmIndexName(r)
+		if idx == "" {
+			c.fail("V5", fn+":index", token.NoPos, "scan index not identified")
+			continue
+		}
+		mb, _ := c.namedConstInt("ErrHdrMoreBytes")
+		all := append(r.grouped(r.trans), r.grouped(r.post)...)
+		adv := map[int64]token.Pos{}
+		for _, t := range all {
+			if t.Exit == "return" && t.Verd.has(mb) && strings.Contains(t.RetOffs, "()#0") && t.To >= 0 {
+				adv[t.To] = t.RetPos
+			}
+		}
+		var states []int64
+		for k := range adv {
+			states = append(states, k)
+		}
+		sort.Slice(states, func(i, j int) bool { return states[i] < states[j] })
+		bare := "+" + idx
+		for _, st := range states {
+			nStates++
+			var bad []string
+			pos := adv[st]
+			for _, t := range all {
+				if t.From != st {
+					continue
+				}
+				// only where the index can differ between a one-shot and a resumed parse: on a whitespace byte
+				// (one-shot: always the first blank of the run; resumed: possibly a later one) or with the buffer
+				// exhausted. On any other byte the index is that byte's position in both.
+				if t.Bytes != nil && !(t.Bytes.has(' ') || t.Bytes.has('\t') || t.Bytes.has('\r') || t.Bytes.has('\n')) {
+					continue
+				}
+				nTrans++
+				for _, cl := range t.Calls {
+					op := strings.Index(cl, "(")
+					if op < 0 || !strings.HasSuffix(cl, ")") {
+						continue
+					}
+					name, args := cl[:op], strings.Split(cl[op+1:len(cl)-1], ",")
+					if (strings.HasSuffix(name, ".Extend") || strings.HasSuffix(name, ".Set")) && strings.TrimSpace(args[len(args)-1]) == bare && !(len(args) == 2 && strings.TrimSpace(args[0]) == bare) {
+						bad = append(bad, t.Bytes.String()+": "+cl)
+						pos = t.AtPos
+						if !pos.IsValid() {
+							pos = t.RetPos
+						}
+					}
+				}
+				for _, sto := range t.Stores {
+					if eq := strings.Index(sto, "="); eq > 0 && strings.HasSuffix(strings.ToLower(sto[:eq]), "end") && sto[eq+1:] == bare {
+						bad = append(bad, t.Bytes.String()+": "+sto)
+						pos = t.AtPos
+					}
+				}
+			}
+			sort.Strings(bad)
+			if len(bad) > 3 {
+				bad = bad[:3]
+			}
+			c.check(len(bad) == 0, "V5", fn+":"+r.name(st)+":no-span-end-at-resumed-index", pos, fmt.Sprintf("state %s can be resumed with the scan index %s already past trailing whitespace (a more-bytes exit returns the skipper's offset); no transition from it closes a span at the bare index %v", r.name(st), idx, bad))
+		}
+	}
+	c.check(nStates >= 15, "V5", "states", token.NoPos, fmt.Sprintf("%d advance-on-suspend states, %d transitions from them inspected (frozen minimum 15 states)", nStates, nTrans))
+}
+
 // V1: framing views (shared with C06).
 func ruleV1(c *Ctx) {
 	t := &Ctx{Prog: c.Prog, Prop: c.Prop}
@@ -197,6 +296,7 @@ func init() {
 		Rules: []Rule{
 			{"V1", "framing views are the returned offset: on every definitive return of ParseSIPMsg the body starts where the headers ended and is extended to the returned offset, Buf = buf[0:ret], RawMsg = Buf[msg.offs:ret]; msg.offs is stored once, in state Init, from the offs parameter", ruleV1},
 			{"V2", "Hdr.Val comes from the value object of the same header: the 8 typed branches of the first call and the 8 resume cases of ParseHdrLine use the same getter, the same parser and copy the same value field, which belongs to the object passed to the parser", ruleV2},
+			{"V5", "trimming survives a suspension: in every state of the 5 extracted automata that a more-bytes exit persists together with an offset already advanced by the whitespace skipper, no transition taken on a whitespace byte or at buffer end closes a span at the bare scan index (Extend(i) / Set(a,i) / *end=i) — after a resume the index is past the trailing blanks and they would become part of the value", ruleV5},
 			{"V3", "nesting by sibling agreement on the completing exits of the extracted automata: an exit that extends Params (or closes the URI) extends the whole value V to the same end; the tag is the parameter value span; the CSeq number starts V and the method ends it", ruleV3},
 		},
 		Assumptions: []string{"field end arguments are positions <= len(buf) (C04-P2)"},
